@@ -59,6 +59,11 @@ K_chain == <<99,104,97,105,110>>
 K_xdefs == <<120,45,100,101,102,115>>
 
 DefRef(n) == <<35>> \o FragmentOf(<<PS(K_definitions), PS(n)>>)
+\* the same fragment with every "/" separator written percent-encoded ("%2F"): a URI fragment is percent-decoded as a
+\* whole before it is read as a JSON Pointer, so it designates the same location
+RECURSIVE PctSlash(_)
+PctSlash(s) == IF s = <<>> THEN <<>> ELSE (IF Head(s) = 47 THEN <<37, 50, 70>> ELSE <<Head(s)>>) \o PctSlash(Tail(s))
+DefRefPct(n) == <<35>> \o PctSlash(FragmentOf(<<PS(K_definitions), PS(n)>>))
 RefObj(r) == Obj1(K_d_ref, Str(r))
 Sub == At(T, pos, 1).v
 WithFirst(S, k, v) == JObj(<<k>> \o S.k, <<v>> \o S.v)
@@ -108,10 +113,11 @@ Scenario ==
     \* still mean the document itself
     [] arr = "shadow"     -> [S |-> WithFirst(WithLast(TRef(DefRef(n)), K_definitions, Defs(n)), IdKw(D), Str(URoot)),
                               more |-> <<[u |-> URoot, doc |-> Obj1(K_definitions, Obj1(n, Never(D)))]>>]
+    [] arr = "pctsep"     -> [S |-> WithLast(TRef(DefRefPct(n)), K_definitions, Defs(n)), more |-> <<>>]
     [] arr = "urn"        -> [S |-> WithFirst(WithLast(TRef(DefRef(n)), K_definitions, Defs(n)), IdKw(D), Str(UUrn)), more |-> <<>>]
 
 AllArrs == {"local", "rootid", "rootidhash", "absref", "relid", "storeabs", "storerel", "storeownid", "chain",
-            "arrayelem", "nestedabs", "nestedrel", "mixed", "otherid", "recursive", "shadow", "urn"}
+            "arrayelem", "nestedabs", "nestedrel", "mixed", "otherid", "recursive", "shadow", "pctsep", "urn"}
 
 QuickNames == {1, 2, 3, 5, 6, 8, 10, 13, 20}
 ThoroughNames == DOMAIN AllNames
